@@ -22,7 +22,7 @@ class C12(fw.Prop):
             "Spec.Crc.fcs (driver) in both byte orders and with an independent bitwise X-25 in the harness; information frames "
             "whose check value contains the flag byte 0x7E or a zero byte in either position, frame objects serialised, modified and serialised "
             "again, valid frames parsed back; "
-            "the caller's buffer is unchanged after the call; calculators configured through whatever optional constructor arguments exist are built next to the default one, which still computes X-25; non-trivial = distinct message")
+            "the caller's buffer is unchanged after the call; calculators configured through whatever optional constructor arguments exist are built next to the default one, which still computes X-25; messages as memoryview slices / strided views; payloads containing 7D 5E / 7D 5D; three threads sharing the calculators; non-trivial = distinct message")
     trusted_base = ["extract.py prints crc_ccitt_table / reverse_byte graph / constants as they are in the running code",
                     "Spec.Crc is CRC-16/X-25 as in ISO/IEC 13239 (cross-checked against an independent bitwise implementation and the check string)"]
     assumptions = ["CPython executes crc.py as written"]
